@@ -1,7 +1,7 @@
 """C05 - warm starts and regularisation paths solve the problem they are asked; buffer = Xw + b."""
 from .solver_common import run_parallel, run_bbox
 
-LEAN_MODULES = ["Skglm.Properties.C05"]
+LEAN_MODULES = ["Skglm.Properties.C05", "Skglm.Properties.BCD"]
 
 
 def run(ctx, rep):
@@ -14,6 +14,8 @@ def run(ctx, rep):
     run_bbox(ctx, rep, oracles=["buffer", "cert"], solvers_=["ProxNewton", "GroupBCD", "GroupProxNewton", "MultiTaskBCD"])
     from . import est_common
     est_common.run_warm_refits(ctx, rep)
+    from . import moves_common
+    moves_common.run_bcd_moves(ctx, rep, ctx.n(25, 300))
 
 
 def replay(ctx, payload):
